@@ -1102,7 +1102,10 @@ def propagate_toplevel(formula: FNode, env: Optional["pysmt.environment.Environm
         if a.node_id() == b.node_id():
             return 0
         if a.is_constant() and b.is_constant():
-            return a.constant_value() - b.constant_value()
+            # Constants of one sort are ordered by value (strings have
+            # no subtraction)
+            va, vb = a.constant_value(), b.constant_value()
+            return (va > vb) - (va < vb)
         if a.is_constant():
             return -1
         if b.is_constant():
